@@ -259,6 +259,10 @@ theorem step_physical (w : World) {h : Host} {e : Ev} {r : StepOut} {ds : List (
       simp only [Except.ok.injEq, Prod.mk.injEq] at hs
       obtain ⟨rfl, rfl⟩ := hs
       exact ⟨rfl, by rw [(perform_defer hp).2]; rfl⟩
+    | remove d recs =>
+      simp only [Except.ok.injEq, Prod.mk.injEq] at hs
+      obtain ⟨rfl, rfl⟩ := hs
+      exact ⟨rfl, by rw [(perform_remove hp).1]; rfl⟩
     | ready d =>
       simp only [Except.ok.injEq, Prod.mk.injEq] at hs
       obtain ⟨rfl, rfl⟩ := hs
